@@ -110,6 +110,7 @@ func checkC18(c *Ctx) {
 	}
 	twoPass := "second pass of a two-pass parse: the first loop walked the same slice from the same start with the same length arithmetic, rejected every inconsistent length and counted the entries; the second loop repeats exactly that many steps (a relation between two loops, outside the per-site prover)"
 	exempt := map[string]string{
+		"B-IDX|(*gmtls.certificateMsg).unmarshal|@second-pass":                                                                      twoPass,
 		"B-IDX|(*gmtls.certificateMsg).unmarshal|index ?phi1[0] #2":                                                                 twoPass,
 		"B-IDX|(*gmtls.certificateMsg).unmarshal|index ?phi1[1] #2":                                                                 twoPass,
 		"B-IDX|(*gmtls.certificateMsg).unmarshal|index ?phi1[2] #2":                                                                 twoPass,
@@ -587,7 +588,34 @@ func dominatedBy(t *ssa.BasicBlock, in ssa.Instruction) bool {
 
 // hashNewSafe: the receiver of this (Hash).New call is a registered hash
 func hashNewSafe(c *Ctx, f *ssa.Function, call *ssa.Call, reg map[int64]bool) (bool, string) {
-	recv := call.Call.Args[0]
+	return hashValSafe(c, f, call.Call.Args[0], call, reg, 0)
+}
+
+// hashValSafe: the Hash value recv, used at `call` in f, is one with a registered constructor
+func hashValSafe(c *Ctx, f *ssa.Function, recv ssa.Value, call *ssa.Call, reg map[int64]bool, depth int) (bool, string) {
+	// (d) a parameter of an unexported helper whose address is not taken: established at every call site
+	if prm, ok := recv.(*ssa.Parameter); ok && depth < 3 && f.Parent() == nil && f.Object() != nil && !f.Object().Exported() && f.Signature.Recv() == nil {
+		buildCallIndex(c.P)
+		sites := callSiteIndex[f]
+		idx := -1
+		for i, q := range f.Params {
+			if q == prm {
+				idx = i
+			}
+		}
+		if idx >= 0 && len(sites) > 0 && !addrTaken[f] {
+			for _, cs := range sites {
+				cc, isCall := cs.(*ssa.Call)
+				if !isCall || idx >= len(cs.Common().Args) {
+					return false, "called through go/defer"
+				}
+				if ok, why := hashValSafe(c, cs.Parent(), cs.Common().Args[idx], cc, reg, depth+1); !ok {
+					return false, "at the call site in " + fname(cs.Parent()) + ": " + why
+				}
+			}
+			return true, fmt.Sprintf("parameter of a helper, established at its %d call site(s)", len(sites))
+		}
+	}
 	if k, ok := constInt(recv); ok {
 		if reg[k] {
 			return true, "constant registered hash"
